@@ -9,6 +9,22 @@ VERIF = os.path.dirname(os.path.dirname(os.path.abspath(__file__)))
 
 # id -> (technique, level text, level note, design ref)
 CHECKS = {
+    "C01": ("property-based testing (Hypothesis), oracle = independent reference HMM (exhaustive walk enumeration "
+            "cross-checked with an own Viterbi)",
+            "Generated maps (<=12 nodes), traces (<=12 points) and emitting-only first-order configurations of all three "
+            "matcher families are matched on the in-memory map (and on SQLite for integer labels); matched prefix length, "
+            "best probability and admissibility/optimality of the returned walk are compared with an exhaustive enumeration "
+            "of all admissible walks under an independently written model. Exploration.",
+            "trusted: hmmref.py (two evaluators cross-checked on every small case); decisions within 1e-9 of a cut-off are "
+            "skipped; open finding F1 excluded by construction on the in-memory map and counted",
+            "DESIGN.md §2 C01"),
+    "C17": ("property-based testing (Hypothesis), oracle = totality predicate + metamorphic pairs-vs-triples relation",
+            "Generated maps incl. duplicate locations / zero-length edges, traces exactly on nodes and roads, repeats, "
+            "outliers, extreme noise values, both metrics: match() must return a (list, int) pair without raising and the "
+            "(lat, lon, time) form of the trace must give the identical canonical result. Exploration.",
+            "trusted: the generators only build finite maps whose neighbour labels are nodes (dangling labels are outside "
+            "the API's notion of a map)",
+            "DESIGN.md §2 C17"),
     "C13": ("property-based testing (Hypothesis) + exhaustive small-grid enumeration + atheris bridge, "
             "oracle = exact rational geometry",
             "Generated float families (general, scaled, constructed parallel/collinear/touching/zero-length/"
